@@ -676,7 +676,7 @@ def main(tier, seed):
     hist = gen_history(hs, rng, nplans)
     execute("histories", hs.exe, [(300000 + i, ops_) for i, ops_ in enumerate(hist)])
     # 4b. cold starts: one fresh process per plan, first call already under an allocation failure
-    cold = gen_cold(hs, rng, int(os.environ.get("VERIF_C20_COLD", "20000" if thorough else "1200")), alloc_counts)
+    cold = gen_cold(hs, rng, int(os.environ.get("VERIF_C20_COLD", "8000" if thorough else "1200")), alloc_counts)
     execute("cold-starts", hs.exe, [(600000 + i, ops_) for i, ops_ in enumerate(cold)], fresh=True)
     # 5. uninitialised reads: plain build under memcheck, every instance once + the sweeps
     vg_ops = gen_enumeration(hp, rng, draws=(6 if thorough else 2), faults=False) + gen_sweeps(hp, cat)
